@@ -13,11 +13,18 @@
 int env_msg_live   = 0;
 int env_msg_allocs = 0;
 int env_msg_seq    = 0;
+int env_msg_fail_at = -1; /* C20: the n-th nni_msg_alloc/nni_msg_dup (0-based) fails with NNG_ENOMEM */
+int env_msg_failed  = 0;
 
 int
 nni_msg_alloc(nni_msg **mp, size_t sz)
 {
 	nni_msg *m;
+	if (env_msg_fail_at >= 0 && env_msg_allocs == env_msg_fail_at) {
+		env_msg_fail_at = -1;
+		env_msg_failed  = 1;
+		return (NNG_ENOMEM);
+	}
 	CHECK(sz <= ENV_MSG_CAP, "env_msg: body size within the model's capacity");
 	ASSUME(sz <= ENV_MSG_CAP);
 	m = malloc(sizeof(*m));
